@@ -1927,6 +1927,7 @@ func (mgr *Manager) removeConverter(path string) error {
 	if err := converter.Reset(); err != nil {
 		return err
 	}
+	mgr.converterOutputDropped()
 
 	delete(mgr.converters, name)
 	delete(mgr.streamsToConvert, name)
@@ -1950,6 +1951,7 @@ func (mgr *Manager) restartConverterProcess(path string) error {
 	if err := converter.Reset(); err != nil {
 		return err
 	}
+	mgr.converterOutputDropped()
 
 	// run the converter on all streams that match the tags it is attached to again
 	for _, tag := range mgr.tags {
@@ -2020,8 +2022,28 @@ func (mgr *Manager) detachConverterFromTag(tag *tag, tagName string, converter *
 		if err := converter.Reset(); err != nil {
 			return err
 		}
+		mgr.converterOutputDropped()
 	}
 	return nil
+}
+
+// converterOutputDropped makes every tag that looks at payload pending again: a data filter
+// also matches on cached converter output, and that output is gone now.
+func (mgr *Manager) converterOutputDropped() {
+	changed := false
+	for _, t := range mgr.tags {
+		if (t.features.MainFeatures|t.features.SubQueryFeatures)&query.FeatureFilterData == 0 {
+			continue
+		}
+		t.Uncertain = mgr.allStreams
+		changed = true
+	}
+	if !changed {
+		return
+	}
+	mgr.inheritTagUncertainty()
+	mgr.invalidatedDuringTaggingJob(mgr.allStreams)
+	mgr.startTaggingJobIfNeeded()
 }
 
 func (mgr *Manager) ResetConverter(converterName string) error {
